@@ -93,7 +93,7 @@ replay = P.replay
 PROCESSING = {"apodize", "fourier_transform", "inverse_fourier_transform", "phase", "phase_cycle", "phase_cycle-array", "phase-array-p1",
               "autophase", "integrate", "integrate-regions", "integrate-regions-kept", "cumulative_integrate", "remove_background",
               "remove_background-regions", "remove_background-func", "background-func", "left_shift", "normalize", "normalize-dim", "smooth", "interp", "interp-list", "ndalign",
-              "average", "signal_to_noise", "reference", "pseudo_modulation", "create_complex-arrays", "create_complex-kept",
+              "average", "signal_to_noise", "signal_to_noise-regions", "signal_to_noise-noise-regions", "reference", "pseudo_modulation", "create_complex-arrays", "create_complex-kept",
               "np.abs", "np.max-axis"}
 
 
